@@ -1,5 +1,8 @@
 use super::{Type, Typed, Variable};
 use derive_more::Display;
+#[cfg(feature = "verif-loom")]
+use crate::verif_loom::RwLock;
+#[cfg(not(feature = "verif-loom"))]
 use std::sync::RwLock;
 
 #[derive(Display)]
